@@ -11,6 +11,7 @@ import (
 	"go/constant"
 	"go/token"
 	"go/types"
+	"os"
 	"sort"
 	"strings"
 
@@ -963,17 +964,133 @@ func ruleDriver(p *Program, r *Reporter) {
 				}
 			}
 		}
+		if !decoded {
+			// the document read by a helper that hands it back: every value it
+			// returns in that place is the variable json.Unmarshal filled
+			var fromHelper func(v ssa.Value, depth int) bool
+			fromHelper = func(v ssa.Value, depth int) bool {
+				if depth > 4 {
+					return false
+				}
+				for {
+					if mi, ok := v.(*ssa.MakeInterface); ok {
+						v = mi.X
+						continue
+					}
+					break
+				}
+				if ld, ok := v.(*ssa.UnOp); ok && ld.Op == token.MUL {
+					if al, ok := ld.X.(*ssa.Alloc); ok && al.Referrers() != nil {
+						for _, ref := range *al.Referrers() {
+							if mi, ok := ref.(*ssa.MakeInterface); ok {
+								for _, r2 := range liveRefs(mi) {
+									if c, ok := r2.(*ssa.Call); ok && c.Call.StaticCallee() != nil && c.Call.StaticCallee().Name() == "Unmarshal" {
+										return true
+									}
+								}
+							}
+						}
+					}
+				}
+				os := []ssa.Value{v}
+				switch v.(type) {
+				case *ssa.Extract, *ssa.Call:
+				default:
+					os = origins(v)
+				}
+				for _, o := range os {
+					for {
+						if mi, ok := o.(*ssa.MakeInterface); ok {
+							o = mi.X
+							continue
+						}
+						break
+					}
+					var cl *ssa.Call
+					idx := 0
+					switch x := o.(type) {
+					case *ssa.Extract:
+						cl, _ = x.Tuple.(*ssa.Call)
+						idx = x.Index
+					case *ssa.Call:
+						cl = x
+					case *ssa.UnOp:
+						// a load of a local that Unmarshal was given the address of
+						if al, ok := x.X.(*ssa.Alloc); ok && al.Referrers() != nil {
+							hit := false
+							for _, ref := range *al.Referrers() {
+								if mi, ok := ref.(*ssa.MakeInterface); ok {
+									for _, r2 := range liveRefs(mi) {
+										if c, ok := r2.(*ssa.Call); ok && c.Call.StaticCallee() != nil && c.Call.StaticCallee().Name() == "Unmarshal" {
+											hit = true
+										}
+									}
+								}
+							}
+							if hit {
+								continue
+							}
+						}
+						return false
+					default:
+						return false
+					}
+					if cl == nil || cl.Call.StaticCallee() == nil || len(cl.Call.StaticCallee().Blocks) == 0 {
+						return false
+					}
+					n := 0
+					for _, hb := range cl.Call.StaticCallee().Blocks {
+						if ret, ok := terminator(hb).(*ssa.Return); ok && idx < len(ret.Results) {
+							rv := ret.Results[idx]
+							if isNilConst(rv) {
+								continue // the failing exits: the caller does not go on with them
+							}
+							if !fromHelper(rv, depth+1) {
+								return false
+							}
+							n++
+						}
+					}
+					if n == 0 {
+						return false
+					}
+				}
+				return true
+			}
+			decoded = fromHelper(ex.Call.Args[1], 0)
+			if os.Getenv("EVCHECK_DEBUG_DRIVER") != "" {
+				fmt.Fprintf(os.Stderr, "driver: arg=%T %v decoded=%v\n", ex.Call.Args[1], ex.Call.Args[1], decoded)
+			}
+		}
 		r.Check(decoded, base+"/Execute runs against the decoded JSON document", p.Pos(ex.Pos()), "the object passed to Execute is the one json.Unmarshal filled", "the object passed to Execute is not the variable the JSON file was decoded into")
 		got := map[string]bool{}
-		for _, ref := range liveRefs(ex) {
-			e, ok := ref.(*ssa.Extract)
-			if !ok || e.Index != 0 {
-				continue
+		var invoked func(v ssa.Value, depth int)
+		invoked = func(v ssa.Value, depth int) {
+			if depth > 3 {
+				return
 			}
-			for _, r2 := range liveRefs(e) {
-				if c, ok := r2.(*ssa.Call); ok && c.Call.IsInvoke() {
-					got[c.Call.Method.Name()] = true
+			for _, r2 := range liveRefs(v) {
+				c, ok := r2.(*ssa.Call)
+				if !ok {
+					continue
 				}
+				if c.Call.IsInvoke() && c.Call.Value == v {
+					got[c.Call.Method.Name()] = true
+					continue
+				}
+				// handed to a function of the driver that reports it
+				if cal := c.Call.StaticCallee(); cal != nil && len(cal.Blocks) > 0 && fnPkg(cal) != nil && strings.HasPrefix(fnPkg(cal).Pkg.Path(), Mod) {
+					for i, a := range c.Call.Args {
+						if a == v && i < len(cal.Params) {
+							invoked(cal.Params[i], depth+1)
+						}
+					}
+				}
+			}
+		}
+		for _, ref := range liveRefs(ex) {
+			if e, ok := ref.(*ssa.Extract); ok && e.Index == 0 {
+				invoked(e, 0)
 			}
 		}
 		r.Check(got["Type"] && got["Inspect"] && got["True"], base+"/report shows type, value and truth of Execute's result", p.Pos(ex.Pos()), "Type(), Inspect() and True() of the result", fmt.Sprintf("the report does not call Type(), Inspect() and True() on Execute's result (calls: %v)", got))
@@ -1009,9 +1126,90 @@ func ruleDriver(p *Program, r *Reporter) {
 				return ""
 			}
 			printBlocks := map[string][]*ssa.BasicBlock{}
+			// printsAlways: h prints m() of its parameter prm on every path from
+			// its entry to its exits
+			var printsAlways func(h *ssa.Function, prm *ssa.Parameter, m string, depth int) bool
+			printsAlways = func(h *ssa.Function, prm *ssa.Parameter, m string, depth int) bool {
+				if depth > 2 || len(h.Blocks) == 0 {
+					return false
+				}
+				stop := map[*ssa.BasicBlock]bool{}
+				for _, hb := range h.Blocks {
+					for _, hi := range hb.Instrs {
+						c, ok := hi.(*ssa.Call)
+						if !ok || c.Call.StaticCallee() == nil {
+							continue
+						}
+						cal := c.Call.StaticCallee()
+						if cal.Pkg != nil && cal.Pkg.Pkg.Path() == "fmt" && len(c.Call.Args) > 0 {
+							if n := cal.Name(); strings.HasPrefix(n, "Print") || strings.HasPrefix(n, "Fprint") || strings.HasPrefix(n, "Sprint") {
+								if elems, known := varargsOf(c.Call.Args[len(c.Call.Args)-1]); known {
+									for _, e := range elems {
+										for e != nil {
+											if mi, ok := e.(*ssa.MakeInterface); ok {
+												e = mi.X
+												continue
+											}
+											if ct, ok := e.(*ssa.ChangeType); ok {
+												e = ct.X
+												continue
+											}
+											break
+										}
+										if ic, ok := e.(*ssa.Call); ok && ic.Call.IsInvoke() && ic.Call.Value == ssa.Value(prm) && ic.Call.Method.Name() == m {
+											stop[hb] = true
+										}
+									}
+								}
+							}
+							continue
+						}
+						if len(cal.Blocks) > 0 {
+							for i, a := range c.Call.Args {
+								if a == ssa.Value(prm) && i < len(cal.Params) && printsAlways(cal, cal.Params[i], m, depth+1) {
+									stop[hb] = true
+								}
+							}
+						}
+					}
+				}
+				if len(stop) == 0 {
+					return false
+				}
+				okAll := true
+				seen := map[*ssa.BasicBlock]bool{}
+				var walk func(b *ssa.BasicBlock)
+				walk = func(b *ssa.BasicBlock) {
+					if seen[b] || stop[b] || !okAll {
+						return
+					}
+					seen[b] = true
+					if _, isRet := terminator(b).(*ssa.Return); isRet {
+						okAll = false
+						return
+					}
+					for _, sc := range b.Succs {
+						walk(sc)
+					}
+				}
+				walk(h.Blocks[0])
+				return okAll
+			}
 			for _, b := range fn.Blocks {
 				for _, ins := range b.Instrs {
 					c, ok := ins.(*ssa.Call)
+					if ok && c.Call.StaticCallee() != nil && len(c.Call.StaticCallee().Blocks) > 0 && resVal != nil {
+						cal := c.Call.StaticCallee()
+						for i, a := range c.Call.Args {
+							if a == resVal && i < len(cal.Params) {
+								for _, m := range []string{"Type", "Inspect", "True"} {
+									if printsAlways(cal, cal.Params[i], m, 0) {
+										printBlocks[m] = append(printBlocks[m], b)
+									}
+								}
+							}
+						}
+					}
 					if !ok || c.Call.StaticCallee() == nil || c.Call.StaticCallee().Pkg == nil || c.Call.StaticCallee().Pkg.Pkg.Path() != "fmt" || len(c.Call.Args) == 0 {
 						continue
 					}
